@@ -185,7 +185,7 @@ def check_batch(case, ctx):
 
 def facets():
     return [
-        Facet("chunked", dask_case(), check_dask, quick=110, thorough=9000, qshards=10),
-        Facet("chunked_peaks", dask_case(["tp", "tp_discrete", "fp", "dpm", "dpspr", "alpha", "gamma", "scale_by_hs", "stats_list", "stats_band", "fit_jonswap", "ptm1_track", "dp"]), check_dask, quick=40, thorough=4000, qshards=4),
-        Facet("threaded_batch", batch_case(), check_batch, quick=20, thorough=2000, qshards=2),
+        Facet("chunked", dask_case(), check_dask, quick=300, thorough=12000, qshards=10),
+        Facet("chunked_peaks", dask_case(["tp", "tp_discrete", "fp", "dpm", "dpspr", "alpha", "gamma", "scale_by_hs", "stats_list", "stats_band", "fit_jonswap", "ptm1_track", "dp"]), check_dask, quick=120, thorough=6000, qshards=4),
+        Facet("threaded_batch", batch_case(), check_batch, quick=60, thorough=3000, qshards=2),
     ]
